@@ -122,6 +122,8 @@ const URL_ALPHA: &[&str] = &["%", "+", "2", "F", "f", " ", "/", "é", "😀"];
 const URL_TOKENS: &[&str] = &[
     "%", "%C3", "%A9", "%c3", "%a9", "%E2", "%82", "%AC", "%F0", "%9F", "%98", "%80", "%ED", "%A0", "%C0", "%AF", "%FF", "%2", "%2F",
     "%2f", "%2B", "%25", "%zz", "%%", "+", "a", "-._~", "é", "😀", "%F4", "%8F", "%90", "%BF", "%00", "%7F", "%G1", "%1g",
+    // the replacement character is a character like any other
+    "\u{fffd}", "%EF", "%BD", "%EF%BF%BD",
 ];
 const TAG_ALPHA: &[&str] = &["<", ">", "!", "-", "/", "s", "c", "r", "i", "p", "t", "a"];
 const TAG_TOKENS: &[&str] = &[
